@@ -51,3 +51,54 @@ pub(crate) fn sched_point(name: &'static str, what: &str) {
         f(name, what);
     }
 }
+
+// ---------------------------------------------------------------------------------------------
+// access to crate-private functionality for the simulator
+
+/// The chunk iterator the archiver uses for `config` (the chunker types are crate-private).
+///
+/// # Errors
+///
+/// * If the chunker parameters of the config are refused
+pub fn chunk_iter<R: std::io::Read + Send>(
+    config: &crate::repofile::ConfigFile,
+    reader: R,
+    size_hint: usize,
+) -> crate::RusticResult<impl Iterator<Item = crate::RusticResult<Vec<u8>>>> {
+    crate::chunker::ChunkIter::from_config(config, reader, size_hint)
+}
+
+/// What the in-memory index of a repository answers: (pack, offset, length, uncompressed length)
+pub type IndexAnswer = (crate::Id, u32, u32, Option<u32>);
+
+impl<S: crate::repository::IndexedTree> crate::Repository<S> {
+    /// `has` of the in-memory index
+    pub fn verif_index_has(&self, tpe: crate::blob::BlobType, id: &crate::Id) -> bool {
+        use crate::index::ReadIndex;
+        self.index().has(tpe, &crate::blob::BlobId::from(*id))
+    }
+
+    /// `get_id` of the in-memory index
+    pub fn verif_index_get(&self, tpe: crate::blob::BlobType, id: &crate::Id) -> Option<IndexAnswer> {
+        use crate::index::ReadIndex;
+        self.index()
+            .get_id(tpe, &crate::blob::BlobId::from(*id))
+            .map(|e| {
+                (
+                    *e.pack,
+                    e.location.offset,
+                    e.location.length,
+                    e.location.uncompressed_length.map(std::num::NonZeroU32::get),
+                )
+            })
+    }
+
+    /// `total_size` of the in-memory index
+    pub fn verif_index_total_size(&self, tpe: crate::blob::BlobType) -> u64 {
+        use crate::index::ReadIndex;
+        self.index().total_size(tpe)
+    }
+}
+
+/// The sparse-restore option type (not nameable through the public API otherwise).
+pub use crate::commands::restore::SparseRestore;
